@@ -282,6 +282,24 @@ def read (st : Stored) (mode : Mode) (assertMissing : Bool) (rq : Req) : Except 
   if !assertMissing && missingRefused st mode rq.keys then .error .key else
   readCore st rq
 
+/-! ### construction: a 4-D stacked 0/1 mask stored as a label map (`_combine_segments` and the look-up that follows it
+in `_check_and_cast_pixel_array`), one pixel at a time -/
+
+/-- `argmax` along the segment axis: index of the first maximal entry -/
+def argmaxFirst (chans : List Nat) : Nat := chans.findIdx (· == listMax chans)
+
+/-- `_combine_segments` for one pixel: the single channel, or `(argmax + 1) * max` -/
+def combinePixel (chans : List Nat) : Nat :=
+  match chans with
+  | [c] => c
+  | _ => (argmaxFirst chans + 1) * listMax chans
+
+/-- `np.concatenate([[0], segment_numbers])[combined]`: channel i of the stack is the i-th described segment -/
+def labelPixel (nums : List Nat) (chans : List Nat) : Except ErrKind Nat :=
+  match (0 :: nums)[combinePixel chans]? with
+  | some v => .ok v
+  | none => .error .index
+
 /-! ### specification-level views of a stored object (used by the theorems, not by the code model) -/
 
 /-- the label plane stored for stack value `k` (all zero when the object has no frame for it) -/
